@@ -5,12 +5,14 @@ MENUS = {
     'quick': [
         ('types', ['tA', 'tB', 'tM', 'tAB', 'tA2', 'tApB', 'tBi', 'tMpA', 'tA1', 'tA2_dup2', 'tA_dupsym'], 6),
         ('units', ['tA', 'tB', 'tAB', 'tA2', 'ka', 'ha', 'cb', 'kab', 'ka2', 'kacb', 'sq', 'aa'], 7),
+        ('terms3', ['tA', 'tB', 'ka', 'cb', 'kbc', 'kbc2', 'ha'], 7),
         ('dupsym', ['tA', 'tB', 'tA2', 'ka', 'cb', 'ka_dupB', 'a_dup', 'empty', 'nonstr', 'xb_wrongtype', 'ka2', 'bad_dim'], 6),
         ('noref', ['tA', 'tM', 'tMpA', 'p', 'q', 'ka', 'ppa', 'ppka', 'qpa', 'p_dup'], 7),
     ],
     'thorough': [
         ('types', ['tA', 'tB', 'tM', 'tAB', 'tA2', 'tApB', 'tBi', 'tMpA', 'tA1', 'tA2_dup2', 'tA2_dup', 'tA_dupsym'], 7),
         ('units', ['tA', 'tB', 'tAB', 'tA2', 'ka', 'ha', 'ta', 'cb', 'kab', 'ka2', 'kacb', 'sq', 'aa', 'bad_dim'], 8),
+        ('terms3', ['tA', 'tB', 'ka', 'cb', 'kbc', 'kbc2', 'ha', 'ta'], 8),
         ('noref', ['tA', 'tM', 'tMpA', 'p', 'q', 'ka', 'ha', 'ppa', 'ppka', 'qpa', 'p_dup'], 8),
     ]}
 
